@@ -148,6 +148,15 @@ func (g *tgen) target(s *asch) (sx, bool) {
 			return tBytes, true
 		case only("boolean"):
 			return A("bool"), true
+		case only("fixed"):
+			// distinct named fixed types of one size fit one byte array
+			n := nonNull[0].n
+			for _, b := range nonNull {
+				if b.n != n {
+					return sx{}, false
+				}
+			}
+			return T("array", I(int64(n)), T("uint", I(8))), true
 		}
 		return sx{}, false
 	}
@@ -249,6 +258,32 @@ func genRD(c *ctx) {
 		if i%10 == 0 {
 			empty := T("struct", hs("E"), hs(""), T("field", hs("Zz"), A("true"), hs("no_such_field"), hs(""), tInt(64)))
 			c.emit(T("cread", append([]sx{empty, sch, H(bs)}, extra...)...))
+		}
+	}
+	// unions with more branches than a one-byte selector can number (0..63), read and skipped, every interesting branch
+	for _, k := range []int{65, 70, 130} {
+		for _, idx := range []int{0, 1, 63, 64, 65, k - 1} {
+			if idx >= k {
+				continue
+			}
+			w := &wgen{rng: c.rng, maxDepth: 1}
+			u := &asch{kind: "union"}
+			for j := 0; j < k; j++ {
+				u.fields = append(u.fields, &asch{kind: "fixed", n: 2, fname: fmt.Sprintf("u%d", j)})
+			}
+			s := &asch{kind: "record", recName: "Big", names: []string{"u", "tail"}, fields: []*asch{u, {kind: "long"}}}
+			v := &aval{kind: "record", vs: []*aval{
+				{kind: "union", idx: idx, vs: []*aval{{kind: "bytes", bs: []byte{byte(idx), 0xEE}}}},
+				{kind: "int", i: int64(1000 + idx)}}}
+			p := w.plan(s, v, false)
+			bs := encodeSpec(p, s, v)
+			sch := schemaSx(s.toSchema())
+			extra := []sx{s.sx(), v.sx(), p.sx(), I(0)}
+			full := (&tgen{wgen: w}).structFor(s)
+			c.emit(T("cread", append([]sx{full, sch, H(bs)}, extra...)...))
+			c.emit(T("cskip", append([]sx{full, sch, H(bs)}, extra...)...))
+			tailOnly := T("struct", hs("E"), hs(""), T("field", hs("Tail"), A("true"), hs("tail"), hs(""), tInt(64)))
+			c.emit(T("cread", append([]sx{tailOnly, sch, H(bs)}, extra...)...))
 		}
 	}
 }
